@@ -627,3 +627,5 @@ import props_io  # noqa: E402
 CHECKS.update(props_io.CHECKS)
 import props_proc  # noqa: E402
 CHECKS.update(props_proc.CHECKS)
+import props_style  # noqa: E402
+CHECKS.update(props_style.CHECKS)
